@@ -307,7 +307,7 @@ def _key_for(suite, h, r):
 
 
 def _crashed(r):
-    return (r.status == "failure" and not r.failed) or r.status in ("error", "oom")
+    return (r.status == "failure" and not r.failed and not r.playback) or r.status in ("error", "oom")
 
 
 def _pipeline(sc, base, names, cap, jobs):
